@@ -343,6 +343,9 @@ func verifHeadLen(content []byte) int {
 // ---- the run
 
 func verifRunC20(c *verifsim.Ctx) {
+	for _, p := range verifProbesC20 {
+		c.Add(p, 0) // so that a probe that is never reached shows up as 0
+	}
 	w := &verifC20{c: c, key: verifKeys()["store"]}
 	faults := c.Draw("faults", 4) != 0
 	n := 1 + c.Draw("n-assertions", 4)
@@ -744,3 +747,5 @@ func (w *verifC20) genArbitrary(stream []byte, sigStarts []int) []byte {
 		return d
 	}
 }
+
+var verifProbesC20 = []string{"probe:damaged-input-accepted-by-decode", "probe:damaged-input-rejected-by-decode", "probe:damaged-stream-still-yields-assertions", "probe:io-error-surfaced", "probe:long-body", "probe:long-header-value", "probe:nested-container", "probe:newline-led-signature-handed-out", "probe:oversized-assertion-refused", "probe:reader-recovered-after-long-stall", "probe:several-assertions-streamed", "probe:truncated-signature-handed-out", "probe:truncation-reported"}
